@@ -154,20 +154,23 @@ def accHex : Int → List Nat → Int × List Nat
     | some d => accHex (acc * 16 + d) cs
     | none => (acc, c :: cs)
 
+/-- an optional leading `-`: (sign, rest) -/
+def stripMinus : List Nat → Int × List Nat
+  | 45 :: r => (-1, r)
+  | s => (1, s)
+
 /-- `get_hex(def, check_flag = true)` -/
 def getHex (dflt : Int) (s : List Nat) : Int × List Nat :=
-  let (flag, s1) := match s with
-    | 45 :: r => ((-1 : Int), r)
-    | _ => (1, s)
-  let s2 := match s1 with
+  let m := stripMinus s
+  let s2 := match m.2 with
     | 36 :: r => r
-    | _ => s1
+    | _ => m.2
   let s3 := match s2 with
     | 48 :: 120 :: r => r
     | _ => s2
   match hexVal (peek s3) with
   | none => (dflt, s3)
-  | some _ => let r := accHex 0 s3; (r.1 * flag, r.2)
+  | some _ => let r := accHex 0 s3; (r.1 * m.1, r.2)
 
 def accDec : Int → List Nat → Int × List Nat
   | acc, [] => (acc, [])
@@ -180,17 +183,16 @@ def accOct : Int → List Nat → Int × List Nat
 
 /-- `get_int(def)`: decimal, `$`/`0x` hexadecimal, `0o` octal (the digit 8 is accepted there, as in the code);
     without a digit the default is returned and an already consumed `-` stays consumed -/
-def getInt (dflt : Int) (s : List Nat) : Int × List Nat :=
-  let (flag, s1) := match s with
-    | 45 :: r => ((-1 : Int), r)
-    | _ => (1, s)
-  if startsWith [48, 120] s1 ∨ peek s1 = 36 ∧ s1 ≠ [] then
-    let r := getHex dflt s1; (flag * r.1, r.2)
-  else if startsWith [48, 111] s1 then
-    let s2 := s1.drop 2
-    if isOct8 (peek s2) ∧ s2 ≠ [] then let r := accOct 0 s2; (r.1 * flag, r.2) else (dflt, s2)
-  else if isDigit (peek s1) ∧ s1 ≠ [] then let r := accDec 0 s1; (r.1 * flag, r.2)
-  else (dflt, s1)
+def getIntBody (dflt : Int) (m : Int × List Nat) : Int × List Nat :=
+  if startsWith [48, 120] m.2 ∨ peek m.2 = 36 ∧ m.2 ≠ [] then
+    let r := getHex dflt m.2; (m.1 * r.1, r.2)
+  else if startsWith [48, 111] m.2 then
+    let s2 := m.2.drop 2
+    if isOct8 (peek s2) ∧ s2 ≠ [] then let r := accOct 0 s2; (r.1 * m.1, r.2) else (dflt, s2)
+  else if isDigit (peek m.2) ∧ m.2 ≠ [] then let r := accDec 0 m.2; (r.1 * m.1, r.2)
+  else (dflt, m.2)
+
+def getInt (dflt : Int) (s : List Nat) : Int × List Nat := getIntBody dflt (stripMinus s)
 
 /-- `str::parse::<isize>()` or 0 -/
 def parseIntOr0 (s : List Nat) : Int :=
